@@ -6,6 +6,7 @@ import SdJwt.Lemmas.IssueAll
 import SdJwt.Lemmas.RefSound
 import SdJwt.Lemmas.MarkInv
 import SdJwt.Lemmas.CodecL
+import SdJwt.Lemmas.TextCodec
 /-!
 # C07 — issued SD-JWTs are spec-conformant as judged by an independent verifier
 
@@ -182,3 +183,18 @@ theorem C07_disclosure_string_form (c : Codec) (alg salt : String) (key : Option
   · exact discString_no_tilde c salt key v
   · simp only [Codec.discString, String.toList_ofList]; exact B64.enc_no_dot _
   · intro hc hk; exact fromBase64_discString c hc alg salt key v hk
+
+
+/-- **the disclosure text itself**: for the codec of `Impl/JsonText.lean` a disclosure string is the
+base64url of the UTF-8 bytes of the compact JSON text `["salt","name",value]` / `["salt",value]`,
+strings escaped as JSON demands — and that text determines salt, name and value: two disclosures with
+the same text are the same disclosure (`JText.render_injective`) -/
+theorem C07_disclosure_text (salt salt' : String)
+    (key key' : Option String) (v v' : J)
+    (h : JText.render (discJson salt key v) = JText.render (discJson salt' key' v')) :
+    salt = salt' ∧ key = key' ∧ v = v' := by
+  have := JText.render_injective _ _ h
+  cases key <;> cases key' <;> simp_all [discJson]
+
+example : String.ofList (JText.render (discJson "2GLC42sKQveCfGfryNRN9w" (some "given_name") (.str "John\n"))) =
+    "[\"2GLC42sKQveCfGfryNRN9w\",\"given_name\",\"John\\n\"]" := by decide
